@@ -573,7 +573,10 @@ func (e *Exec) store(p *PtrV, nv Value, site string) {
 	if e.mergeDepth > 0 && p.O.Born <= e.mergeEpoch {
 		panic(mergeAbort{"store to a pre-existing object"})
 	}
-	if e.monitorOn && e.initMode == 0 && p.O.Born <= e.monitorEpoch && !isGhostTag(p.O.Tag) {
+	// memory of the linted object exists before the run even when its symbolic model is materialised lazily
+	// (on first access, i.e. after the monitor was switched on)
+	inSpare := p.O.Spare > 0 && len(p.Path) > 0 && p.Path[0] >= p.O.Spare-1
+	if e.monitorOn && e.initMode == 0 && (p.O.Born <= e.monitorEpoch || strings.HasPrefix(p.O.Tag, "lazy:")) && !isGhostTag(p.O.Tag) && !inSpare {
 		fn := ""
 		if e.curFn != nil {
 			fn = e.curFn.String()
